@@ -117,3 +117,50 @@ def check_pointer_scatter(ctx, fi, rule='R-IDIOM/pointer-scatter'):
                              'applied once, and every row after an empty '
                              'one is mislabelled')
     return n
+
+
+def check_pointer_window_rebased(ctx, fi,
+                                 rule='R-SAMEVAL/pointer-window-rebased'):
+    """pointer values are offsets into the `indices` / `data` arrays they
+    belong to.  A window of a pointer array copied into another array
+    (`new[...] = indptr[a:b]`) describes the matrix cut out at `a` only
+    after the first pointer of the window has been subtracted; copied
+    as it is, it points into the old arrays -- past the end of the new,
+    shorter ones.  Accepted: windows starting at 0 / None, and values that
+    went through a subtraction."""
+    cfg = cfg_of(fi)
+    rd = rd_of(fi)
+    ex = None
+    n = 0
+    _DB[:] = [ctx.db, fi]
+    for node in cfg.nodes:
+        if node.kind != 'stmt' or node.id not in rd.live \
+                or not isinstance(node.ast, ast.Assign):
+            continue
+        st = node.ast
+        if not (len(st.targets) == 1 and isinstance(
+                st.targets[0], ast.Subscript)):
+            continue
+        v = st.value
+        while isinstance(v, ast.Call) and isinstance(
+                v.func, ast.Attribute) and v.func.attr in (
+                    'astype', 'copy') :
+            v = v.func.value
+        if not (isinstance(v, ast.Subscript) and isinstance(
+                v.slice, ast.Slice) and v.slice.lower is not None
+                and not (isinstance(v.slice.lower, ast.Constant)
+                         and v.slice.lower.value in (0, None))):
+            continue
+        if ex is None:
+            ex = Expander(fi)
+        t = ex.expand(v.value, node.id)
+        if not _is_pointer_term(t):
+            continue
+        n += 1
+        ctx.touch(fi)
+        ctx.fail(rule, f'{fi.qual}:store#{n - 1}', fi.loc(st),
+                 f'`{unparse(st)[:70]}` copies a window of pointer values '
+                 f'({fmt_term(t)[:40]}) that does not start at 0 without '
+                 'subtracting its first pointer: the copy points into the '
+                 'source arrays, not into the arrays cut out with it')
+    return n
